@@ -5,7 +5,8 @@
                 defer { queueLen--; adp.resp.Delete(id) }     LReturn
                 adp.Send(req)  -> error: return err           LSendOk / LSendFail
                 one-way: return nil
-                select { <-ctx.Done(): timeout                LTimeout
+                select { <-ctx.Done(): error return           LTimeout  (deadline expired OR context cancelled by the caller:
+                                                                        the branch must return an error either way)
                        | resp = <-readCh }                    LHandoff (rendez-vous with a receiver)
      connection.recv: `go protocol.Recv(pkg)` per packet      LPacket (a new receiver goroutine) / LGarbage
      Recv:      id = 0 -> push handling; one-way -> drop      LLookup
